@@ -1,7 +1,7 @@
 /* a job for echsx: follows a little script given as arguments
  *   o:N  write N bytes to stdout (lower-case stream), e:N to stderr (upper-case stream)
  *   s:MS sleep, x:N exit with N, k:SIG kill ourselves, i copy stdin to stdout verbatim,
- *   w    report cwd, umask and uid on stdout as "<cwd> <umask> <uid>\n" (outside the letter streams)
+ *   w:F  report cwd, umask and uid into file F as "<cwd> <umask> <uid>\n"
  * the two streams are deterministic, so a reader can tell loss, duplication and reordering */
 #include <signal.h>
 #include <stdio.h>
@@ -46,7 +46,15 @@ main(int argc, char *argv[])
 			break;
 		}
 		case 'x': return (int)v;
-		case 'k': signal((int)v, SIG_DFL); kill(getpid(), (int)v); pause(); break;
+		case 'k': {
+			sigset_t none;
+			sigemptyset(&none);
+			sigprocmask(SIG_SETMASK, &none, NULL);
+			signal((int)v, SIG_DFL);
+			kill(getpid(), (int)v);
+			pause();
+			break;
+		}
 		case 'i': {
 			char buf[4096];
 			ssize_t n;
@@ -59,7 +67,11 @@ main(int argc, char *argv[])
 			umask(m);
 			if (!getcwd(cwd, sizeof(cwd))) strcpy(cwd, "?");
 			int n = snprintf(out, sizeof(out), "%s %04o %u\n", cwd, (unsigned)m, (unsigned)getuid());
-			(void)!write(1, out, n);
+			FILE *f = fopen(a + 2, "a");
+			if (f) {
+				fwrite(out, 1, n, f);
+				fclose(f);
+			}
 			break;
 		}
 		default: break;
